@@ -184,6 +184,13 @@ func (c *Ctx) strEq(a, b Term) Term {
 	if a.S == b.S {
 		return TTrue
 	}
+	// there is exactly one empty string
+	if a.S == "str_empty" {
+		return Eq(c.strLen(b), IntLit(0))
+	}
+	if b.S == "str_empty" {
+		return Eq(c.strLen(a), IntLit(0))
+	}
 	eq := Eq(a, b)
 	// extensionality instance for this pair (skolemised difference index)
 	key := "ext|" + a.S + "|" + b.S
@@ -305,6 +312,12 @@ func (f *Frame) stdModel(in ssa.Instruction, callee *ssa.Function, cc *ssa.CallC
 		g := c.heapGet(st, ghostCanUnread, ArrSort(SInt, SBool))
 		c.setHeap(st, ghostCanUnread, c.define("ghost", Store(g, args[0][0], TFalse)))
 		return nil, false // fall through to the generic treatment of the call
+	case "errors.As", "errors.Is":
+		// generic treatment of the call (the target may be written), plus: a nil error matches nothing
+		c.note("assumed", "assumed contract: errors.As / errors.Is report false for a nil error")
+		res := f.opaqueCall(in, cc, callee, args, st)
+		st.assume(c, Implies(Eq(args[0][0], IntLit(0)), Not(res[0])))
+		return res, true
 	case "unicode.IsControl":
 		c.note("assumed", "assumed contract: unicode.IsControl(r) for r < 256 <=> r < 0x20 || 0x7f <= r < 0xa0")
 		r := args[0][0]
